@@ -93,6 +93,18 @@ impl<T: FftNum> FftPlanner<T> {
         }
     }
 
+    /// Which backend the automatic planner resolved to (verification only).
+    #[cfg(rustfft_verif)]
+    pub fn verif_backend(&self) -> &'static str {
+        match &self.chosen_planner {
+            ChosenFftPlanner::Scalar(_) => "scalar",
+            ChosenFftPlanner::Avx(_) => "avx",
+            ChosenFftPlanner::Sse(_) => "sse",
+            ChosenFftPlanner::Neon(_) => "neon",
+            ChosenFftPlanner::WasmSimd(_) => "wasm_simd",
+        }
+    }
+
     /// Returns a `Fft` instance which computes FFTs of size `len`.
     ///
     /// If the provided `direction` is `FftDirection::Forward`, the returned instance will compute forward FFTs. If it's `FftDirection::Inverse`, it will compute inverse FFTs.
@@ -308,6 +320,12 @@ impl<T: FftNum> FftPlannerScalar<T> {
         self.plan_fft(len, FftDirection::Inverse)
     }
 
+    /// Plan report for verification: the recipe for `len` as Debug text, without building any transform.
+    #[cfg(rustfft_verif)]
+    pub fn verif_design(&mut self, len: usize) -> String {
+        format!("{:?}", self.design_fft_for_len(len))
+    }
+
     // Make a recipe for a length
     fn design_fft_for_len(&mut self, len: usize) -> Arc<Recipe> {
         if len < 2 {
@@ -329,6 +347,8 @@ impl<T: FftNum> FftPlannerScalar<T> {
             instance
         } else {
             let fft = self.build_new_fft(recipe, direction);
+            #[cfg(rustfft_verif)]
+            crate::verif_hooks::emit_build(recipe, &fft);
             self.algorithm_cache.insert(&fft);
             fft
         }
